@@ -21,6 +21,25 @@ PROPS = {
         "level_note": _TB + "Modelled not verified: cavity insertion, hull extension, star split (Env.impl). Under ValidationPolicy::Never + Pseudomanifold no check runs at all (theorem selectCheck_never_pseudo); there only the K3 tie speaks.",
         "technique": "Lean 4 proof of the post-insertion validation table and commit-or-restore over an arbitrary insertion function + independent L1-L3 recomputation after every real insert call",
     },
+    "C05": {
+        "lean_modules": ["DelaunayModel.Props.C05"],
+        "required_theorems": ["DM.C05.checkL1_iff", "DM.C05.checkL2_iff", "DM.C05.nbrOk_iff", "DM.C05.coherent_iff", "DM.C05.checkL3_iff",
+                              "DM.C05.tdsValidate_iff", "DM.C05.triValidate_iff", "DM.C05.facetKey_eq_iff",
+                              "DM.C05.reject_repeated_vertex", "DM.C05.reject_nonfinite_coordinate", "DM.C05.reject_stale_incident",
+                              "DM.C05.reject_duplicate_cell", "DM.C05.reject_dangling_neighbor", "DM.C05.reject_one_way_neighbor",
+                              "DM.C05.reject_isolated_vertex", "DM.C05.reject_facet_overshared"],
+        "level_text": "Theorems (Lean kernel, 60 in Props/C05): every executable validator of the model equals a declarative specification (Level 1; each of the seven Level-2 components incl. neighbour pointers = facet-sharing relation and coherent orientation; Level-3 facet degree, closed boundary, no isolated vertex, Euler), cumulative validators are conjunctions of their levels, facet keys identify vertex sets, and nine single-fault classes are rejected by the owning level for ANY complex. Correspondence (K1): 18 fault classes (plus pairs) are injected into real Tds values through guarded raw mutators and the verdict of every real validator (element validators, Tds::is_valid/validate, Triangulation::is_valid/validate, report emptiness) is compared with the Lean recomputation from the exported raw cells; uncorrupted library output must be accepted by both.",
+        "level_note": _TB + "Outside the model: 64-bit facet-hash collisions; UUID<->key map corruption (not reachable through the exported view); ridge/vertex-link and connectivity validators have executable models compared by K1 but no declarative spec theorem; PL sphere recognition for D>=4 is not claimed (matches the code comment).",
+        "technique": "Lean 4 proof that executable validators = declarative specs + single-fault rejection theorems; differential fault-injection check of the real validators",
+    },
+    "C07": {
+        "lean_modules": ["DelaunayModel.Props.C07"],
+        "required_theorems": ["DM.C07.flip_count", "DM.C07.flip_info_exact", "DM.C07.flip_nodup", "DM.C07.flip_inverse", "DM.C07.flip_inverse_perm",
+                              "DM.C07.flip_vertex_set", "DM.C07.flip_facet_balance", "DM.C07.flip_facet_degree_outer", "DM.C07.flip_facet_inner_counts"],
+        "level_text": "Theorems (Lean kernel): for every legal bistellar move (R, I) on any duplicate-free cell set: the cell count changes by |R|-|I|, the removed/created cells are exactly the sets the move prescribes, the result is duplicate-free, the move with R and I exchanged is legal and restores the identical cell set, the vertex set is unchanged for 2<=k<=D, and facet multiplicities outside the move are unchanged while inside they follow the (II: 2->0, RR: 0->2, RI: 1->1) law (hence facet degrees stay in {1,2} and the boundary facet set is preserved for k>=2). Correspondence (K1): every facet/ridge/edge/triangle/cell handle class incl. stale and out-of-range handles is driven through the public Edit API; on success the post-state cell set must equal the Lean move applied to the pre-state with FlipInfo's R and I, the cell-count delta and FlipInfo must be exact, L1/L2 + combinatorial manifold invariants are recomputed, inverse moves must restore the fingerprint exactly, failures must leave the state unchanged.",
+        "level_note": _TB + "Modelled through their result only: neighbour wiring and orientation normalisation (re-checked by the L2 recomputation), geometric degeneracy guard. Connectedness and Euler characteristic preservation are checked per state, not proved.",
+        "technique": "Lean 4 proof of the set algebra of bistellar moves + model-vs-implementation comparison of every successful flip",
+    },
     "C06": {
         "lean_modules": ["DelaunayModel.Props.C06"],
         "required_theorems": ["DM.C06.remove_unknown_noop", "DM.C06.remove_err_unchanged", "DM.C06.remove_ok_valid_or_empty",
